@@ -15,7 +15,8 @@ def main(ctx):
     if not ctx.quick:
         J.append({'mod': MOD, 'fn': 'arms', 'mode': 'sym', 'args': {'H': 1, 'W': 4, 'len_arms': 3, 'cap': cap}})
         J.append({'mod': MOD, 'fn': 'arms', 'mode': 'sym', 'args': {'H': 2, 'W': 3, 'len_arms': 2, 'cap': cap}})
-    cfgs = [dict(disps=[0, 1]), dict(disps=[-1, 0], second_call=True), dict(disps=[-0.75, -0.25, 0.5], subpix=4)]
+    cfgs = [dict(disps=[0, 1]), dict(disps=[-1, 0], second_call=True), dict(disps=[-0.75, -0.25, 0.5], subpix=4),
+            dict(disps=[0], len_arms=5, W=4, sym_pixels=[])]       # cbca_distance larger than the number of rows (3) and columns
     if not ctx.quick:
         cfgs += [dict(disps=[-1, 0, 1], len_arms=3), dict(disps=[-1.5, -0.5, 0.5], subpix=2, second_call=True), dict(disps=[0, 1], sym_pixels=[[1, 1], [1, 2]])]
     for cfg in cfgs:
